@@ -108,6 +108,8 @@ func c06Harness(cfg *Cfg) func(x *mc.Exec) {
 	}
 	red := pieces.Reduced(pieces.T32, cfg.Seed)
 	payloads = append(payloads, red[0], red[1], red[2], red[5], pieces.P("10K-text", pieces.Text(10000, cfg.Seed)))
+	// maximal byte values over lengths far beyond the number of bytes Adler-32 can sum without reducing (5552)
+	payloads = append(payloads, pieces.P("ff-500000", pieces.Zero(500000, 0xff)), pieces.P("fe-250000", pieces.Zero(250000, 0xfe)))
 	if cfg.Thorough {
 		payloads = append(payloads, red[3], red[4])
 	}
@@ -328,6 +330,9 @@ func c06Harness(cfg *Cfg) func(x *mc.Exec) {
 		}
 		if pat == 4 && len(p.Data) > 20000 {
 			return
+		}
+		if len(p.Data) > 200000 && !(lvl == -2 || lvl == 1 || lvl == 2 || lvl == 6) {
+			return // the long checksum payloads: one level per compressor
 		}
 		if len(p.Data) > 0 {
 			x.NonTrivial()
